@@ -73,6 +73,11 @@ CHECKS = {
    text="Literal values enumerated from generated alias programs are tested with `='t`, `=('t)x` and through a generic identity; accepted => inhabits the type as written; compile-time type contained in the target => accepted. Every program runs directly, tree-shaken, merged after 0-4 unrelated corpus programs and in a REPL session with aliases on an earlier line; the verdict vectors must agree. One defect class (recursive partials) is a known finding.",
    design="§3 C08",
    note="Function/process/resource types are not generated here; wider-static-type rejections are allowed (documented carve-out)."),
+ "C16": dict(
+   technique="runtime monitoring: space monitor (executor peak counters + heap slot count) over tail-recursive shape templates executed at N and 50N",
+   text="Tail-recursive shapes (self ^ in body / consequence / nested blocks / after bindings / after failed matches, named ^self through a passed function, ^~, per-iteration binaries, tuples, strings, and receive loops with int and binary messages) run at N and 50N on fresh profiled workers; peak frames, locals and operand stack must be identical and heap slots must not grow.",
+   design="§3 C16",
+   note="The counting-allocator byte check sketched in DESIGN is not built; REPL-hosted loops are not covered."),
 }
 
 NOT_BUILT = "check not built yet in this round (work in progress; see DESIGN.md §6 build order)"
